@@ -52,6 +52,10 @@ mutant('m14_pause_drift', 'C04', 'break',
   ('klog/app/cli/pause.go', 'uncapturedIncrement := diffInMinutes(ctx.Now(), start) - minsCaptured', 'uncapturedIncrement := diffInMinutes(ctx.Now(), start) - minsCaptured\n\t\tif uncapturedIncrement > 90 {\n\t\t\tuncapturedIncrement = 90\n\t\t}'))
 mutant('m15_new_record_position', 'C04', 'break',
   ('klog/parser/reconciling/creator.go', 'if len(rs)-1 == i || (atDate.IsAfterOrEqual(r.Date()) && !atDate.IsAfterOrEqual(rs[i+1].Date())) {', 'if len(rs)-1 == i || (atDate.IsAfterOrEqual(r.Date()) && !rs[i+1].Date().IsAfterOrEqual(atDate) == false && !atDate.IsAfterOrEqual(rs[i+1].Date())) || (i+1 < len(rs) && rs[i+1].Date().IsEqualTo(atDate) && atDate.IsAfterOrEqual(r.Date())) {'))
+mutant('m16_atomic_write_rename_error_ignored', 'C05', 'break',
+  ('klog/app/file.go', '\terr := os.WriteFile(target.Path(), []byte(contents), 0644)\n', '\ttmp := target.Path() + ".tmp~"\n\terr := os.WriteFile(tmp, []byte(contents), 0644)\n\tif err == nil {\n\t\t_ = os.Rename(tmp, target.Path())\n\t}\n'))
+mutant('m17_manual_write_error_ignored', 'C05', 'break',
+  ('klog/app/file.go', '\terr := os.WriteFile(target.Path(), []byte(contents), 0644)\n', '\tf, err := os.OpenFile(target.Path(), os.O_WRONLY|os.O_CREATE|os.O_TRUNC, 0644)\n\tif err == nil {\n\t\t_, _ = f.WriteString(contents)\n\t\terr = f.Close()\n\t}\n'))
 # behaviour-preserving refactors: must stay green
 mutant('r01_atomic_write', 'C05', 'refactor',
   ('klog/app/file.go', '\terr := os.WriteFile(target.Path(), []byte(contents), 0644)\n', '\ttmp := target.Path() + ".tmp~"\n\terr := os.WriteFile(tmp, []byte(contents), 0644)\n\tif err == nil {\n\t\terr = os.Rename(tmp, target.Path())\n\t}\n'))
@@ -59,6 +63,8 @@ mutant('r02_buffered_channel', 'C07', 'refactor',
   ('klog/parser/engine/parallel.go', 'resultChannel := make(chan batchResult[T])', 'resultChannel := make(chan batchResult[T], len(batches))'))
 mutant('r03_sorted_tally', 'C11', 'refactor',
   ('klog/parser/reconciling/style.go', '\tfor _, value := range e.order {\n\t\tcount := e.votes[value]\n', '\tfor i := 0; i < len(e.order); i++ {\n\t\tvalue := e.order[i]\n\t\tcount := e.votes[value]\n'))
+mutant('r04_manual_write', 'C05', 'refactor',
+  ('klog/app/file.go', '\terr := os.WriteFile(target.Path(), []byte(contents), 0644)\n', '\tf, err := os.OpenFile(target.Path(), os.O_WRONLY|os.O_CREATE|os.O_TRUNC, 0644)\n\tif err == nil {\n\t\t_, err = f.WriteString(contents)\n\t\tif cErr := f.Close(); err == nil {\n\t\t\terr = cErr\n\t\t}\n\t}\n'))
 import json
 json.dump(M, open(os.path.join(OUT, 'index.json'), 'w'), indent=1)
 print(len(M), 'patches')
